@@ -296,6 +296,212 @@ def judge_parse(ctx, exe, b, impl, model, via='FromString(const char*)'):
             ctx.violation(sig, '%s(%s) = %s, the grammar "<0-255>.<0-65535>" gives %s' % (via, show(b), impl, want), replay)
 
 
+def judge_ops(ctx, a, b, i, mo, replay, note=''):
+    ctx.cov['traces_validated_against_impl'] += 1
+    if i != mo:
+        ctx.disagree('operators on %s, %s%s: compiled code %s, model %s' % (a, b, note, i, mo), replay)
+    want = oracle_ops(a, b)
+    if i != want:
+        badk = [k for k in range(6) if i[k] != want[k]] if len(i) == 6 else []
+        sig = 'C20/operator-%s/not-lexicographic' % (OPNAMES[badk[0]] if badk else 'any')
+        if first_of(sig, 5):
+            ctx.violation(sig, '%d.%d {%s} %d.%d%s: got [== != < > <= >=] = %s, the (major, minor) order gives %s'
+                          % (a + (' '.join(OPS[k] for k in badk),) + b + (note, i, want)), replay)
+
+
+# reserved bytes a DataVersion copied out of received bytes can carry (the constructors always write 0xFF)
+RESERVED = [0x00, 0x01, 0x7F, 0x80, 0xFE, 0xFF]
+# environments of the harness: global grouping locales 1..4, user stream imbue()d with them 11..14
+ENV_GLOBAL = [1, 2, 3, 4]
+ENV_STREAM = [11, 12, 13, 14]
+ENV_TEXT = {1: 'std::locale::global(): grouping "\\3", thousands \',\'', 2: 'std::locale::global(): grouping "\\3", thousands \'.\', decimal point \',\'',
+            3: 'std::locale::global(): grouping "\\1", thousands \' \'', 4: 'std::locale::global(): grouping "\\2\\3", thousands "\'"',
+            11: 'stream.imbue(): grouping "\\3", thousands \',\'', 12: 'stream.imbue(): grouping "\\3", thousands \'.\', decimal point \',\'',
+            13: 'stream.imbue(): grouping "\\1", thousands \' \'', 14: 'stream.imbue(): grouping "\\2\\3", thousands "\'"'}
+FLAGS_PLAIN = ['hex', 'oct', 'showpos', 'showbase-hex', 'upper-hex', 'boolalpha-sci', 'w3r']
+FLAGS_WIDTH = ['w9r', 'w9l', 'w9i']
+
+
+def wire(v, reserved):
+    return '%02x%02x%02x%02x' % (reserved, v[0], v[1] & 255, v[1] >> 8)
+
+
+def plain_text(v):
+    """The text of a version as the property's grammar has it (and as the Lean model's toStr, checked version by version)."""
+    return b'<invalid>' if v == (255, 65535) else b'%d.%d' % v
+
+
+def unhex_answer(h):
+    return b'' if h == '-' else bytes.fromhex(h) if re.fullmatch('([0-9a-f]{2})+', h) else None
+
+
+def judge_format_crash(ctx, exe, what, request, v, replay):
+    sig = 'C20/%s/crashes' % what
+    ctx.count('violations_' + sig.split('/', 1)[1])
+    if first_of(sig, 1):
+        rep = sanitizer_report(exe, request)
+        ctx.violation(sig, '%s of %d.%d (request "%s") does not return: sanitizer report: %s' % (what, v[0], v[1], request, ' | '.join(rep[:4])),
+                      dict(replay, sanitizer=rep))
+
+
+def judge_text(ctx, what, v, got_hex, env, flags, replay):
+    """The text of a version does not depend on the locale or on the state of the caller's stream; with a field width
+    the version text stands inside the padding."""
+    got = unhex_answer(got_hex)
+    want = plain_text(v)
+    ctx.cov['traces_validated_against_impl'] += 1
+    if got_hex == 'fault':
+        judge_format_crash(ctx, build_harness(), what, replay.get('request', '?'), v, replay)
+        return
+    if got == want or (flags in FLAGS_WIDTH and got is not None and got.strip(b'*') == want):
+        return
+    if env:
+        sig = 'C20/%s/text-depends-on-locale' % what
+    else:
+        sig = 'C20/%s/text-depends-on-stream-state' % what
+    ctx.count('violations_' + sig.split('/', 1)[1])
+    if first_of(sig, 3):
+        back = oracle_parse(got) if got is not None else got_hex
+        ctx.violation(sig, '%s of %d.%d%s%s = %s, the text of the version is %s (parsing it back by the grammar: %s)'
+                      % (what, v[0], v[1], ' under ' + ENV_TEXT[env] if env else '', ' with %s set on the stream' % flags if flags else '',
+                         show(got) if got is not None else got_hex, show(want), back), replay)
+
+
+def run_environment(ctx, exe, deep, versions, strings, box_model):
+    """Everything once more in the environments an application puts the code in: a global C++ locale with digit grouping
+    (what std::locale::global(std::locale("")) installs under en_US / de_DE), a user stream imbue()d with one, stream
+    flags left on the user's stream; and for objects copied out of wire bytes with any reserved byte."""
+    rng = ctx.rng
+    edge = [v for v in versions if v[1] in (0, 9, 10, 99, 100, 999, 1000, 1001, 9999, 10000, 32768, 65534, 65535)]
+    rest = [v for v in versions if v not in set(edge)]
+    pick = rng.sample(edge, min(len(edge), 1600 if deep else 400)) + rng.sample(rest, min(len(rest), 2400 if deep else 600))
+    pick += [(1, 65535), (0, 1000), (255, 65535), (255, 65534), (100, 100)]
+    reqs = []
+    for k, v in enumerate(pick):
+        g = ENV_GLOBAL[k % 4] if k >= 4 * 5 else None
+        for env in (ENV_GLOBAL if g is None else [g]):            # the first few under every environment
+            reqs.append(('ToString()', 'f', v, env, ''))
+            reqs.append(('operator<<', 'o', v, env, ''))
+        reqs.append(('operator<<', 'o', v, ENV_STREAM[(k // 4) % 4], ''))
+        fl = (FLAGS_PLAIN + FLAGS_WIDTH)[k % 10]
+        reqs.append(('operator<<', 'O', v, 0, fl))
+        if k % 7 == 0:
+            reqs.append(('operator<<', 'O', v, rng.choice(ENV_GLOBAL + ENV_STREAM), rng.choice(FLAGS_PLAIN + FLAGS_WIDTH)))
+
+    def line(op, v, env, fl):
+        return ('@%d ' % env if env else '') + '%s %d %d' % (op, v[0], v[1]) + (' ' + fl if fl else '')
+    impl, _ = run_harness(exe, [line(op, v, env, fl) for _, op, v, env, fl in reqs])
+    for (what, op, v, env, fl), i in zip(reqs, impl):
+        ctx.case('env %s' % line(op, v, env, fl))
+        ctx.count('texts_under_%s' % ('global_locale' if 1 <= env <= 4 else 'imbued_stream' if env else 'stream_flags'))
+        judge_text(ctx, what, v, i, env, fl, {'kind': 'text', 'what': what, 'request': line(op, v, env, fl), 'major': v[0], 'minor': v[1],
+                                              'environment': ENV_TEXT.get(env, 'classic'), 'flags': fl})
+
+    # parsing does not depend on the C++ locale either
+    sample = strings[::max(1, len(strings) // (4000 if deep else 1200))]
+    lines = ['@%d p %s' % (ENV_GLOBAL[k % 4], b.hex() or '-') for k, b in enumerate(sample)]
+    impl, _ = run_harness(exe, lines)
+    for b, i in zip(sample, impl):
+        ctx.count('parse_under_global_locale')
+        if i != oracle_parse(b):
+            judge_parse(ctx, exe, b, i, None, via='FromString(const char*) [global grouping locale]')
+
+    # round trips in bulk: under the global locales, and for wire-built objects with each reserved byte; the answer must
+    # be the one the model gave for the box (count, no failure, hash of all texts)
+    boxes = sorted(box_model)
+    some = [bx for bx in boxes if bx[0] != bx[1]] if not deep else []
+    runs = [bx for bx in boxes if bx[0] == bx[1]]
+    some += rng.sample(runs, min(len(runs), 64 if deep else 24))
+    reqs = []
+    for k, bx in enumerate(some):
+        reqs.append((bx, ENV_GLOBAL[k % 4], None))
+        reqs.append((bx, 0, (RESERVED + [rng.randrange(256)])[k % 7]))
+        if k % 5 == 0:
+            reqs.append((bx, ENV_GLOBAL[(k // 5) % 4], 0x00))
+    impl, _ = run_harness(exe, [('@%d ' % env if env else '') + 'r %d %d %d %d' % bx + (' %d' % res if res is not None else '')
+                                for bx, env, res in reqs])
+    for (bx, env, res), i in zip(reqs, impl):
+        n = (bx[1] - bx[0] + 1) * (bx[3] - bx[2] + 1)
+        ctx.count('versions_round_tripped_in_bulk_environments', n)
+        ctx.cov['evaluations'] += n
+        ctx.cov['traces_validated_against_impl'] += n
+        judge_box(ctx, bx, i, box_model[bx], env, res)
+
+    # round trips of wire-built objects one by one: text, operator<< text, parsed value, and how the result compares
+    reqs = [(v, r, 0) for k, v in enumerate(pick) for r in ((RESERVED + [rng.randrange(256)]) if k % 16 == 0 else [RESERVED[k % 5]])]
+    reqs += [(v, rng.choice(RESERVED), rng.choice(ENV_GLOBAL)) for v in pick[::9]]
+    impl, _ = run_harness(exe, [('@%d ' % env if env else '') + 'W ' + wire(v, r) for v, r, env in reqs])
+    for (v, r, env), i in zip(reqs, impl):
+        ctx.case('W %s %d %d' % (v, r, env))
+        ctx.count('wire_objects_round_tripped')
+        judge_wire(ctx, v, r, env, i)
+
+
+def judge_box(ctx, bx, i, mo, env, res):
+    replay = {'kind': 'box', 'box': list(bx)}
+    note = ''
+    if env:
+        replay['env'] = env
+        note += ' under ' + ENV_TEXT[env]
+    if res is not None:
+        replay['reserved'] = res
+        note += ' (objects copied out of wire bytes, reserved byte 0x%02X)' % res
+    n = (bx[1] - bx[0] + 1) * (bx[3] - bx[2] + 1)
+    parts = i.split(' ')
+    if i == 'fault':
+        ctx.violation('C20/round-trip/reads-outside-the-string', 'sanitizer report inside box %s%s' % (bx, note), replay)
+    elif len(parts) != 4 or parts[0] != str(n) or parts[1] != '0':
+        nbad = parts[1] if len(parts) > 1 else '?'
+        first = parts[3] if len(parts) > 3 else None
+        why = ''
+        if first and re.fullmatch(r'\d+\.\d+', first):
+            fM, fm = (int(x) for x in first.split('.'))
+            req = [('@%d ' % env if env else '') + 'W ' + wire((fM, fm), 0xFF if res is None else res)]
+            try:
+                why = ' [%s -> %s]' % (req[0], run_harness(build_harness(), req)[0][0])
+            except Exception:
+                pass
+        ctx.violation('C20/round-trip/version-changed',
+                      'majors %d-%d minors %d-%d%s: %s of %d versions do not survive ToString/FromString (field-wise, or by operator==), first %s%s'
+                      % (bx + (note, nbad, n, first, why)), dict(replay, first=first))
+    elif mo is not None and i != mo:
+        ctx.violation('C20/ToString/text-depends-on-environment' if env else 'C20/ToString/text-depends-on-reserved-byte',
+                      'majors %d-%d minors %d-%d%s: all versions round-trip but the texts differ from the model\'s (count, bad, hash, first): "%s" vs "%s"'
+                      % (bx + (note, i, mo)), replay)
+
+
+def judge_wire(ctx, v, r, env, i):
+    replay = {'kind': 'wire', 'major': v[0], 'minor': v[1], 'reserved': r, 'env': env}
+    note = 'DataVersion copied out of the wire bytes %s (reserved 0x%02X, version %d.%d)%s' % (
+        wire(v, r), r, v[0], v[1], ' under ' + ENV_TEXT[env] if env else '')
+    ctx.cov['traces_validated_against_impl'] += 1
+    parts = i.split(' ')
+    if i == 'fault':
+        judge_format_crash(ctx, build_harness(), 'ToString()/FromString() round trip', ('@%d ' % env if env else '') + 'W ' + wire(v, r), v, replay)
+        return
+    if len(parts) != 5:
+        raise fv.InfraError('harness answer to W: ' + i)
+    text, otext, back, valid, bits = parts
+    want_text = plain_text(v)
+    want_back = 'invalid' if v == (255, 65535) else 'ok:%d:%d' % v
+    if unhex_answer(text) != want_text:
+        judge_text(ctx, 'ToString()', v, text, env, '', dict(replay, request='W ' + wire(v, r)))
+    if unhex_answer(otext) != want_text:
+        judge_text(ctx, 'operator<<', v, otext, env, '', dict(replay, request='W ' + wire(v, r)))
+    if valid != ('0' if v == (255, 65535) else '1'):
+        ctx.violation('C20/IsValid', '%s: IsValid() = %s' % (note, valid), replay)
+    if back != want_back:
+        if first_of('C20/round-trip/version-changed', 3):
+            ctx.violation('C20/round-trip/version-changed', '%s: FromString(ToString(v) = %s) = %s' % (note, show(unhex_answer(text) or b'?'), back), replay)
+    elif bits != '1111111':
+        names = ['back == v', 'v == back', '!(back != v)', '!(back < v)', '!(back > v)', 'back <= v', 'back >= v']
+        bad = [names[k] for k in range(min(7, len(bits))) if bits[k] != '1']
+        ctx.count('violations_round-trip-result-compares-unequal')
+        if first_of('C20/round-trip/result-compares-unequal', 3):
+            ctx.violation('C20/round-trip/result-compares-unequal',
+                          '%s: back = FromString(ToString(v)) has the same major and minor, but these are false: %s' % (note, '; '.join(bad)), replay)
+
+
 def run(ctx, deep):
     exe = build_harness()
     maxlen = 5 if deep else 4
@@ -361,6 +567,9 @@ def run(ctx, deep):
         if f != mf or o != mf or v != mv:
             ctx.disagree('version %d.%d: ToString %s, operator<< %s, IsValid %s; model text %s, valid %s'
                          % (M, m, f, o, v, mf, mv), replay)
+        for what, op, ans in (('ToString()', 'f', f), ('operator<<', 'o', o)):
+            if ans == 'fault':
+                judge_format_crash(ctx, exe, what, '%s %d %d' % (op, M, m), (M, m), replay)
         valid_want = '0' if (M, m) == (255, 65535) else '1'
         if v != valid_want:
             ctx.violation('C20/IsValid', 'IsValid(%d.%d) = %s' % (M, m, v), replay)
@@ -397,6 +606,7 @@ def run(ctx, deep):
         boxes += [(0, 255, 0, 12), (0, 255, 65520, 65535), (0, 255, 9990, 10010), (0, 255, 95, 105), (0, 255, 995, 1005)]
     impl, _ = run_harness(exe, ['r %d %d %d %d' % b for b in boxes])
     model = driver_parallel(ctx, ['dvrt %d %d %d %d' % b for b in boxes])
+    box_model = dict(zip(boxes, model))
     for bx, i, mo in zip(boxes, impl, model):
         replay = {'kind': 'box', 'box': list(bx)}
         n = (bx[1] - bx[0] + 1) * (bx[3] - bx[2] + 1)
@@ -419,20 +629,36 @@ def run(ctx, deep):
     pairs = gen_pairs(ctx, 20000 if deep else 3000)
     impl, _ = run_harness(exe, ['c %d %d %d %d' % (a + b) for a, b in pairs])
     model = ctx.driver(['dvcmp %d %d %d %d' % (a + b) for a, b in pairs])
+    cmp_model = {}
     for (a, b), i, mo in zip(pairs, impl, model):
         replay = {'kind': 'compare', 'a': list(a), 'b': list(b)}
         ctx.case('c %s %s' % (a, b))
         ctx.count('operator_pairs')
-        ctx.cov['traces_validated_against_impl'] += 1
-        if i != mo:
-            ctx.disagree('operators on %s, %s: compiled code %s, model %s' % (a, b, i, mo), replay)
-        want = oracle_ops(a, b)
-        if i != want:
-            badk = [k for k in range(6) if i[k] != want[k]] if len(i) == 6 else []
-            sig = 'C20/operator-%s/not-lexicographic' % (OPNAMES[badk[0]] if badk else 'any')
-            if first_of(sig, 5):
-                ctx.violation(sig, '%d.%d {%s} %d.%d: got [== != < > <= >=] = %s, the (major, minor) order gives %s'
-                              % (a + (' '.join(OPS[k] for k in badk),) + b + (i, want)), replay)
+        cmp_model[(a, b)] = mo
+        judge_ops(ctx, a, b, i, mo, replay)
+
+    # ---- the same operators on objects as a receiver gets them: copied out of wire bytes, any reserved byte ----
+    wp = []
+    for a, b in pairs[::max(1, len(pairs) // (6000 if deep else 1500))]:
+        wp.append((a, b))
+        wp.append((a, a))                 # the same version twice: only the reserved bytes can differ
+    wreq = []
+    for a, b in wp:
+        ra, rb = rng.choice(RESERVED + [rng.randrange(256)]), rng.choice(RESERVED + [rng.randrange(256)])
+        if rng.random() < 0.5:
+            rb = 0xFF                     # against a version built in code
+        wreq.append((a, ra, b, rb))
+    impl, _ = run_harness(exe, ['C %s %s' % (wire(a, ra), wire(b, rb)) for a, ra, b, rb in wreq])
+    missing = sorted({(a, b) for a, _, b, _ in wreq if (a, b) not in cmp_model})
+    for (a, b), mo in zip(missing, ctx.driver(['dvcmp %d %d %d %d' % (a + b) for a, b in missing])):
+        cmp_model[(a, b)] = mo
+    for (a, ra, b, rb), i in zip(wreq, impl):
+        replay = {'kind': 'compare', 'a': list(a), 'b': list(b), 'reserved': [ra, rb]}
+        ctx.case('C %s %s %d %d' % (a, b, ra, rb))
+        ctx.count('operator_pairs_from_wire_bytes')
+        judge_ops(ctx, a, b, i, cmp_model[(a, b)], replay, ' (objects copied out of wire bytes, reserved bytes 0x%02X / 0x%02X)' % (ra, rb))
+    # ---- the environment: locales, stream state, reserved bytes ----
+    run_environment(ctx, exe, deep, versions, strings, box_model)
     ctx.sample({'compare': '1.65535 vs 2.0', '== != < > <= >=': oracle_ops((1, 65535), (2, 0))})
 
 
@@ -449,7 +675,14 @@ def check(ctx):
                        'grammar regex. versions: all 256 majors x 20 boundary minors + random ones individually (ToString, operator<<, '
                        'IsValid, FromString(ToString)), plus boxes of versions round-tripped in bulk inside harness and model '
                        '(quick: 96 consecutive minors per major at a random offset + boundary bands; thorough: all 256 x 65536). '
-                       'operators: all pairs of a 70-point boundary grid + random pairs (same major / same minor / swapped fields). '
+                       'operators: all pairs of a 70-point boundary grid + random pairs (same major / same minor / swapped fields), '
+                       'and again on DataVersion objects copied out of 4 wire bytes with reserved bytes 0x00/0x01/0x7F/0x80/0xFE/0xFF/random '
+                       '(equal versions with different reserved bytes included). environments: ToString / operator<< texts, FromString and bulk '
+                       'round trips repeated with a global C++ locale whose numpunct facet groups digits (4 facets built in the harness: '
+                       'grouping 3, 1, 2-3; separators , . space apostrophe; other decimal points), with the user stream imbue()d with them, '
+                       'and with flags left on the user stream (hex, oct, showpos, showbase, uppercase, scientific, width/fill/adjust: the '
+                       'version text must stand unbroken inside the padding); wire-built objects round-tripped one by one and in bulk with '
+                       'each reserved byte, the result compared with the original by all of == != < > <= >=. '
                        'non-trivial string = accepted, of the grammar shape, or starting with a digit; distinct = distinct text / version / pair')
     ctx.assumptions += [
         'libc strtol is modelled by its contract (isspace skip, optional sign, digits, stops at the first non-digit, clamps to long); '
@@ -457,6 +690,7 @@ def check(ctx):
         'a C string is modelled as a list of non-NUL bytes in an allocation of exactly length+1 bytes (the harness allocates exactly that); '
         'the "C" locale is assumed for isspace',
         'leading zeros are read as admitted by "<0-255>.<0-65535>" ("007.0003" is 7.3); "255.65535" denotes the reserved invalid version',
+        'objects "copied out of wire bytes" are built with memcpy on this (little-endian) host: reserved, major, minor low, minor high',
         'memory safety of the compiled code is validated by ASan/UBSan on the generated inputs; the universally quantified statement '
         'is about the model']
     ctx.prove(MODULES)
@@ -480,6 +714,29 @@ def replay(ctx, path):
         print('FromString(%s): compiled code %s, model %s, grammar %s' % (show(b), impl[0], model[0], oracle_parse(b)))
         if impl[0] != model[0] or impl[0] != oracle_parse(b):
             judge_parse(ctx, exe, b, impl[0], model[0])
+    elif kind == 'text':
+        v = (r['major'], r['minor'])
+        impl, _ = run_harness(exe, [r['request']])
+        model = ctx.driver(['dvfmt %d %d' % v])
+        print('%s: compiled code %s = %s, model text %s' % (r['request'], impl[0], show(unhex_answer(impl[0]) or b'?'), model[0]))
+        if model[0] != (plain_text(v).hex() or '-'):
+            ctx.disagree('text of %d.%d: model %s, grammar %s' % (v + (model[0], plain_text(v).hex())), r)
+        m = re.match(r'@(\d+) ', r['request'])
+        judge_text(ctx, r['what'], v, impl[0], int(m.group(1)) if m else 0, r.get('flags', ''), r)
+    elif kind == 'wire':
+        v = (r['major'], r['minor'])
+        line = ('@%d ' % r['env'] if r.get('env') else '') + 'W ' + wire(v, r['reserved'])
+        impl, _ = run_harness(exe, [line])
+        print('%s: %s' % (line, impl[0]))
+        judge_wire(ctx, v, r['reserved'], r.get('env', 0), impl[0])
+    elif kind == 'box' and ('env' in r or 'reserved' in r):
+        bx = tuple(r['box'])
+        env, res = r.get('env', 0), r.get('reserved')
+        line = ('@%d ' % env if env else '') + 'r %d %d %d %d' % bx + (' %d' % res if res is not None else '')
+        impl, _ = run_harness(exe, [line])
+        model = ctx.driver(['dvrt %d %d %d %d' % bx])
+        print('%s: compiled code "%s", model "%s"' % (line, impl[0], model[0]))
+        judge_box(ctx, bx, impl[0], model[0], env, res)
     elif kind in ('version', 'box'):
         bx = (r['major'], r['major'], r['minor'], r['minor']) if kind == 'version' else tuple(r['box'])
         impl, _ = run_harness(exe, ['r %d %d %d %d' % bx])
@@ -497,7 +754,11 @@ def replay(ctx, path):
             print('ToString -> %s, IsValid -> %s' % (impl[0], impl[1]))
     elif kind == 'compare':
         a, b = tuple(r['a']), tuple(r['b'])
-        impl, _ = run_harness(exe, ['c %d %d %d %d' % (a + b)])
+        if 'reserved' in r:
+            impl, _ = run_harness(exe, ['C %s %s' % (wire(a, r['reserved'][0]), wire(b, r['reserved'][1]))])
+            print('objects copied out of wire bytes, reserved bytes %s' % r['reserved'])
+        else:
+            impl, _ = run_harness(exe, ['c %d %d %d %d' % (a + b)])
         model = ctx.driver(['dvcmp %d %d %d %d' % (a + b)])
         print('operators on %s, %s: compiled code %s, model %s, lexicographic %s' % (a, b, impl[0], model[0], oracle_ops(a, b)))
         if impl[0] != model[0]:
